@@ -160,6 +160,9 @@ impl<K: Kind> D<K> {
         let exact = if K::MULTISET { "C14" } else { "C13" };
         if inst.f.len() != total {
             ctx.fail(exact, format!("{} len()={} but abstract content has {} after {}", K::NAME, inst.f.len(), total, what));
+            if what == "union" {
+                ctx.fail("C06", format!("{} after union: len()={} but the two streams together hold {}", K::NAME, inst.f.len(), total));
+            }
         }
         if inst.f.is_empty() != (total == 0) {
             ctx.fail("C19", format!("{} is_empty()={} with {} stored after {}", K::NAME, inst.f.is_empty(), total, what));
@@ -170,6 +173,9 @@ impl<K: Kind> D<K> {
             if got != want {
                 let prop = if want { "C01" } else { exact };
                 ctx.fail(prop, format!("{} query({})={} but abstract content says {} after {}", K::NAME, x, got, want, what));
+                if what == "union" {
+                    ctx.fail("C06", format!("{} after union: query({})={} but the two streams together say {}", K::NAME, x, got, want));
+                }
                 break;
             }
         }
